@@ -56,6 +56,31 @@ Qed.
 Lemma cur_eq_m (s s' : store) n : m s' = m s -> cur s' n = cur s n.
 Proof. intros E. unfold cur, entry. rewrite E. reflexivity. Qed.
 
+(* the locked part of a lookup flight, in ANY state satisfying the store invariant: the watcher list is
+   untouched (nobody is notified), handles stay, and a name that has a handle - in particular every
+   watched name - keeps its (version, bytes): it has a value, so the flight keeps the entry *)
+Lemma lookup_finish_facts (s : store) n v b now : Inv s ->
+  let s' := fst (lookup_finish s n v b now) in
+  ws s' = ws s /\ allow s' = allow s /\ (forall k, In k (hs s) -> In k (hs s')) /\
+  (forall k, In k (hs s) -> cur s' k = cur s k).
+Proof.
+  intros I. unfold lookup_finish. destruct (entry s n) as [e|] eqn:En.
+  - destruct (secret_locked s n) as [s1 ok] eqn:E.
+    destruct (@secret_locked_facts _ _ _ _ E) as (W1 & M1 & Al & H1 & _ & _). cbn [fst].
+    repeat split; auto. intros k _. apply cur_eq_m. exact M1.
+  - unfold lookup_install. cbn [fst].
+    set (s0 := with_m s (upd n (Some (CE v b now false)) (m s))).
+    destruct (secret_locked s0 n) as [s2 ok2] eqn:E2.
+    destruct (@secret_locked_facts _ _ _ _ E2) as (W2 & M2 & Al2 & H2 & _ & _). cbn [fst].
+    split; [rewrite W2; reflexivity|]. split; [rewrite Al2; reflexivity|].
+    split; [intros k Hk; apply H2; exact Hk|].
+    intros k Hk. rewrite (@cur_eq_m _ _ _ M2). unfold cur, entry, s0. cbn [m with_m]. rewrite find_upd_cases.
+    destruct (neqb k n) eqn:D; auto. apply neqb_true in D. subst k. exfalso.
+    (* a name with a handle is present and not a stub, so it has an entry *)
+    destruct I as [_ N Hh]. specialize (Hh _ Hk). specialize (N n). unfold entry in En.
+    destruct (find n (m s)) as [[e|]|]; congruence.
+Qed.
+
 Lemma read_facts (s : store) n now : let s' := fst (read s n now) in
   ws s' = ws s /\ hs s' = hs s /\ allow s' = allow s /\ forall k, cur s' k = cur s k.
 Proof.
@@ -283,7 +308,7 @@ Ltac fin := cbn [uw un ucl uph ucur uerr upend ucnt uclosed ufrom useen usince u
 
 Theorem step_UInv (s : ustate) e : UInv s -> UInv (fst (step s e)).
 Proof.
-  intros Hs. pose proof Hs as (I & L & A & Bk). destruct e as [ups|n v b now|n cl|i now|i ok|i now|i ok|i]; cbn [step].
+  intros Hs. pose proof Hs as (I & L & A & Bk). destruct e as [ups|n v b now|n ans now|n cl|i now|i ok|i now|i ok|i]; cbn [step].
   - (* EApply *)
     cbn [fst]. rewrite apply_updates_fst. split; [apply fold_apply1_Inv; exact I|]. split.
     { cbn [st us]. rewrite fold_apply1_ws_length, map_length. exact L. }
@@ -327,6 +352,13 @@ Proof.
       (* the looked-up name was unknown, a watched name is known *)
       exfalso. destruct (A i u Hu) as [_ _ c _ _ _ _ _ _ _]. destruct I as [_ _ Hh]. specialize (Hh _ c).
       rewrite D in Hh. symmetry in K1. unfold known in K1. destruct (find n (m (st s))); congruence.
+  - (* ELate: the flight's locked part in an arbitrary state *)
+    destruct ans as [[v b]|]; [|exact Hs].
+    cbn [fst]. destruct (@lookup_finish_facts (st s) n v b now I) as (W1 & _ & H1 & C1).
+    split; [apply lookup_finish_Inv; exact I|]. split; [cbn [st us]; rewrite W1; exact L|]. split; [|exact Bk].
+    intros i u Hu. cbn [us st] in *. eapply UOk_frame; [|apply A; exact Hu].
+    destruct (A i u Hu) as [_ _ c _ _ _ _ _ _ _].
+    split; [rewrite W1; reflexivity|]. split; [apply H1|apply C1; exact c].
   - (* EReg *)
     destruct (secret_locked (st s) n) as [s1 ok] eqn:E.
     destruct (@secret_locked_facts _ _ _ _ E) as (W1 & M1 & Al & H1 & K1 & Hn).
@@ -506,7 +538,7 @@ Proof.
   destruct (A i u Hu) as [a b c d e0 f g h k l].
   assert (Same : nth_error (us s) i = Some (set_since u (usince u || false))).
   { rewrite orb_false_r, set_since_id. exact Hu. }
-  destruct e as [ups|n v b0 now|n cl|j now|j ok|j now|j ok|j]; cbn [step about ev_installs ev_last] in *.
+  destruct e as [ups|n v b0 now|n ans now|n cl|j now|j ok|j now|j ok|j]; cbn [step about ev_installs ev_last] in *.
   - cbn [fst us st]. rewrite nth_error_map, Hu. cbn [option_map]. split; [reflexivity|].
     rewrite apply_updates_fst. destruct (@fold_apply1_watch i (un u) ups (st s) (usince u) I c b) as (_ & _ & _ & _ & F4). exact F4.
   - destruct (secret_locked (st s) n) as [s1 ok] eqn:E.
@@ -521,6 +553,9 @@ Proof.
     destruct (neqb (un u) n) eqn:D; auto. apply neqb_true in D. exfalso.
     destruct I as [_ _ Hh]. specialize (Hh _ c). rewrite D in Hh. symmetry in K1. unfold known in K1.
     destruct (find n (m (st s))); congruence.
+  - destruct ans as [[v b0]|]; [|cbn [fst]; split; [exact Same|reflexivity]].
+    cbn [fst us st]. split; [exact Same|].
+    destruct (@lookup_finish_facts (st s) n v b0 now I) as (_ & _ & _ & C1). apply C1. exact c.
   - destruct (secret_locked (st s) n) as [s1 ok] eqn:E.
     destruct (@secret_locked_facts _ _ _ _ E) as (W1 & M1 & Al & H1 & K1 & Hn).
     destruct ok; [|cbn [fst]; split; [exact Same|reflexivity]].
@@ -758,6 +793,50 @@ Proof.
   split; [rewrite <- F2; symmetry; exact Cx|]. split; [exact Hs3|].
   intros evs2 u4 H4 R4. pose proof (exec_UInv evs2 Hs3) as (I4 & L4 & A4 & B4).
   destruct (A4 _ _ H4) as [a4 b4 c4 d4 e4 f4 g4 h4 k4 l4]. unfold flag_of. rewrite b4. cbn [wflag]. apply d4. exact R4.
+Qed.
+
+(* ------------------------------------------------------------------ late flights (the F8 repair) *)
+
+(* a watched name has a value (its handle exists, handles never dangle, no stubs) *)
+Lemma watched_has_value (s : ustate) i u : UInv s -> nth_error (us s) i = Some u ->
+  exists e, entry (st s) (un u) = Some e.
+Proof.
+  intros (I & _ & A & _) Hu. destruct (A i u Hu) as [_ _ c _ _ _ _ _ _ _].
+  destruct I as [_ N Hh]. specialize (Hh _ c). specialize (N (un u)). unfold entry.
+  destruct (find (un u) (m (st s))) as [[e|]|]; try congruence. eauto.
+Qed.
+
+(* what the repair buys: the locked part of a flight that finishes on a name which already has a
+   value hands out the handle and changes neither the map (value, version, stamps of every name) nor
+   any watcher's flag nor any updater - so no install happens that a watcher is not told about *)
+Theorem late_keeps (s : ustate) n v b now e : entry (st s) n = Some e ->
+  let r := step s (ELate n (Some (v, b)) now) in
+  snd r = OOk /\ m (st (fst r)) = m (st s) /\ ws (st (fst r)) = ws (st s) /\
+  us (fst r) = us s /\ blog (fst r) = blog s /\ In n (hs (st (fst r))).
+Proof.
+  intros E. cbn [step fst snd st us blog].
+  destruct (@lookup_finish_known V (st s) n v b now e E) as (M1 & W1 & _ & H1). repeat split; auto.
+Qed.
+
+(* in particular on every watched name, in every reachable state *)
+Theorem late_on_watched (s : ustate) i u v b now : UInv s -> nth_error (us s) i = Some u ->
+  let s' := fst (step s (ELate (un u) (Some (v, b)) now)) in
+  m (st s') = m (st s) /\ cur (st s') (un u) = cur (st s) (un u) /\
+  (forall j, flag_of (st s') j = flag_of (st s) j) /\ us s' = us s /\ blog s' = blog s.
+Proof.
+  intros Hs Hu. destruct (@watched_has_value s i u Hs Hu) as (e & E).
+  destruct (@late_keeps s (un u) v b now e E) as (_ & M1 & W1 & U1 & B1 & _).
+  repeat split; auto.
+  - apply cur_eq_m. exact M1.
+  - intros j. unfold flag_of. rewrite W1. reflexivity.
+Qed.
+
+(* a flight that is NOT overtaken (the name is still unknown when its locked part runs) is the
+   install of the atomic ELookup *)
+Lemma late_is_lookup (s : ustate) n v b now : known (st s) n = false -> allow (st s) = true ->
+  step s (ELate n (Some (v, b)) now) = step s (ELookup n v b now).
+Proof.
+  intros K Al. cbn [step]. unfold secret_locked. rewrite K, Al, (lookup_finish_unknown _ _ _ _ _ K). reflexivity.
 Qed.
 
 End Proofs.
